@@ -95,4 +95,15 @@ def specGet (m : KMap) (k : Key) : Option Ent := mget m k
 /-- entries under a prefix, in key order (the map is kept in key order) -/
 def specList (m : KMap) (p : Key) : KMap := m.filter (fun x => p.isPrefixOf x.1)
 
+/-- Sessions ending: every key held by a session that is gone is released (holder cleared, modify index
+    = the command's index, everything else kept) or deleted, according to that session's behaviour;
+    every other key is untouched. `gone h` says whether the session named `h` no longer exists. -/
+def specEnd (m : KMap) (idx : Nat) (gone : String → Bool) (beh : String → Behavior) : KMap :=
+  m.filterMap fun x =>
+    if x.2.holder != "" && gone x.2.holder then
+      match beh x.2.holder with
+      | .delete => none
+      | .release => some (x.1, { x.2 with holder := "", modify := idx })
+    else some x
+
 end CV.Store
